@@ -5,6 +5,7 @@ from .. import hgen
 from ..hbase import STUBS
 from ..hlib import c11 as L
 from .common import BASE_ASSUMPTIONS, ROOT, Cond, Spec
+from ..runner import innermost as U
 
 
 def build(tier):
@@ -38,7 +39,7 @@ def build(tier):
     S = aioftp.Server
     return Spec(
         pid="C11", source=src, conds=conds,
-        functions_encoded=[S._start_passive_server, S.pasv.__wrapped__, S.epsv.__wrapped__, S.dispatcher, aioftp.errors.NoAvailablePort],
+        functions_encoded=[S._start_passive_server, U(S.pasv), U(S.epsv), S.dispatcher, aioftp.errors.NoAvailablePort],
         bounds={
             "pool": f"0..{nmax} configured ports; each either held by another live session or in the pool with retry priority 0..2 (symbolic)",
             "listener start": "outcome of each of up to 4 attempts symbolic: success, OSError(EADDRINUSE), OSError(e) with e a symbolic errno in 1..200; the stub yields once before and once after 'binding' as loop.create_server does",
